@@ -6,7 +6,7 @@ ROOT = os.path.dirname(os.path.dirname(os.path.abspath(__file__)))
 VX = os.path.join(ROOT, "tools/vx/target/release/vx")
 BUILD = os.path.join(ROOT, "build")
 VERUS_RLIMIT = "30"
-VERUS_TIMEOUT_S = 600
+VERUS_TIMEOUT_S = 180
 
 ASSUMPTIONS = {
     "A1": "A1: evaluating a model on a StateHD seeded in direction(s) d yields a generalized dual number whose parts are the corresponding partial derivatives of one function A*T (num-dual implements exact AD; field names cross-checked against the num-dual source)",
